@@ -122,7 +122,9 @@ void AST::distributeToFiles(OutputMode outputMode, std::filesystem::path singleF
 			entityMapping[e->getNodeGroup()] = e.get();
 
 
-		std::map<Entity*, std::vector<Entity*>> entitiesByPartition;
+		// partitions in the order of their first (dependency sorted) entity, not in the order of their addresses
+		std::vector<std::pair<Entity*, std::vector<Entity*>>> entitiesByPartition;
+		std::map<Entity*, size_t> partitionIndex;
 		for (auto *e : getDependencySortedEntities()) {
 			HCL_ASSERT(e->getNodeGroup() != nullptr);
 			const hlim::NodeGroup *partition = e->getNodeGroup()->getPartition();
@@ -131,7 +133,10 @@ void AST::distributeToFiles(OutputMode outputMode, std::filesystem::path singleF
 				entity = entityMapping[partition];
 			else
 				entity = getRootEntity();
-			entitiesByPartition[entity].push_back(e);
+			auto [it, isNew] = partitionIndex.try_emplace(entity, entitiesByPartition.size());
+			if (isNew)
+				entitiesByPartition.push_back({entity, {}});
+			entitiesByPartition[it->second].second.push_back(e);
 		}
 
 		m_sourceFiles.reserve(entitiesByPartition.size());
